@@ -292,7 +292,7 @@ def shapes_for(lhs, rhs, func, reachable_only=False):
         per = [("abs-not", cls), ("op", cls, 2), ("op", cls, 3)]
         perb = per[:1] if (reachable_only and len(rhs) == 3) else per
         return [{nts[0]: a, nts[1]: b} for a in per for b in perb]
-    if func == "p_field_search" and len(nts) == 1:
+    if func == "p_field_search" and len(nts) == 1 and not hasattr(P, "_field_expression"):
         # the action inspects the class of p[3] and reads Group.expr: split Group / not Group
         return [{nts[0]: ("abs-not", T.Group)}, {nts[0]: ("conc", T.Group)}]
     return [{i: "abs" for i in nts}]
@@ -347,6 +347,76 @@ def children_of(node):
     return out
 
 
+fgconv = z3.Function("field_expression_fp", model.FP, model.FP)
+
+
+class FieldExprStub:
+    """contract of luqum.parser._field_expression on an abstract sub-term (proved per class by
+    field_expression_cases): the result prints like the argument and has its layout; a Group becomes a FieldGroup,
+    a Boost stays a Boost (its boosted expression converted), anything else is returned unchanged"""
+
+    def __init__(self, real):
+        self.real = real
+
+    def __call__(self, e):
+        if not isinstance(e, model.AbsNode):
+            return self.real(e)
+        cx = ctx()
+        r = model.AbsNode(e.vf_name + "_fe", layout="none")
+        d = r.__dict__
+        for k in ("head", "tail", "pos", "size", "core"):
+            d[k] = e.__dict__[k]
+        cx.assume(r.fp == fgconv(e.fp))
+        cx.assume(z3.Implies(model.is_class(e.fp, ["Group"]), model.is_class(r.fp, ["FieldGroup"])))
+        cx.assume(z3.Implies(model.is_class(e.fp, ["Boost"]), model.is_class(r.fp, ["Boost"])))
+        cx.assume(z3.Implies(z3.Not(model.is_class(e.fp, ["Group", "Boost"])), r.fp == e.fp))
+        return r
+
+
+def field_expression_cases(want):
+    """contract of the helper _field_expression, per class, its recursive call stubbed by the same contract"""
+    if not hasattr(P, "_field_expression"):
+        return []
+    cases = []
+    from . import treecases
+    for la, mk, cls in treecases.instances(layout="sym", ops_shapes=(2,)):
+        if ".parsed" in la or cls is T.NoneItem:
+            continue
+
+        def run(cx, la=la, mk=mk, cls=cls):
+            x, kids = mk("x")
+            real = P._field_expression
+            P._field_expression = FieldExprStub(real)
+            try:
+                before_text = model.text(x)
+                before_layout = (x.pos, x.size, x.head, x.tail)
+                r = real(x)
+            finally:
+                P._field_expression = real
+            key = "helper/_field_expression/%s" % la
+            obls = []
+            if "C01" in want:
+                obls.append(("C01-G/%s/text-preserved" % key, S(model.text(r)) == S(before_text)))
+            if "C02" in want:
+                obls.append(("C02-G/%s/position-and-layout-preserved" % key,
+                             all(a is b for a, b in zip((r.pos, r.size, r.head, r.tail), before_layout))))
+            if "C03" in want or "C01" in want:
+                exp = T.FieldGroup if cls is T.Group else cls
+                ok = type(r) is exp
+                if cls is T.Group:
+                    ok = ok and r.expr is x.expr
+                elif cls is T.Boost:
+                    ok = ok and r is x and isinstance(r.expr, model.AbsNode) and r.expr is not kids[0]
+                else:
+                    ok = ok and r is x
+                obls.append(("C03-S/%s/group-becomes-field-group-boost-recurses-others-unchanged" % key, ok))
+            if "C04" in want:
+                obls.append(("C04-X/%s/returns-item" % key, isinstance(r, T.Item)))
+            return obls
+        cases.append(core.Case("helper/_field_expression/" + la, run, functions=["luqum.parser._field_expression"]))
+    return cases
+
+
 def run_production(cx, prod, shape, want):
     """arrange, call the real p_* function, return obligations.  `want` = set of property ids."""
     idx, lhs, rhs, func, fn = prod
@@ -366,6 +436,9 @@ def run_production(cx, prod, shape, want):
     p = mkp([v.v for v in vals])
     mark = len(cx.log)
     outcome = None
+    real_fe = getattr(P, "_field_expression", None)
+    if real_fe is not None:
+        P._field_expression = FieldExprStub(real_fe)      # callee contract (modular verification)
     try:
         fn(p)
     except X.ParseError as e:
@@ -374,6 +447,9 @@ def run_production(cx, prod, shape, want):
         raise
     except Exception as e:  # noqa: BLE001  an escaping non-ParseError exception is program behaviour
         outcome = e
+    finally:
+        if real_fe is not None:
+            P._field_expression = real_fe
     obls = []
     key = "%s#%d[%s]" % (func, idx, shape_label(shape))
     cx.notes["replay_info"] = {"production": prod[:4], "shape": shape_label(shape),
@@ -405,6 +481,8 @@ def run_production(cx, prod, shape, want):
                 n = ext_len(res.operands)
                 obls.append(("C01-G/%s/inv" % key, z3.And(S(res.head) == "", S(res.tail) == "", n >= 2)))
         obls.append(("C01-G/%s/frame" % key, frame_ok(cx, vals, res, mark)))
+    if "C03" in want:
+        obls.extend(shape_obligations(key, lhs, rhs, func, vals, res))
     if "C02" in want:
         hyp = []
         for v in vals:
@@ -438,6 +516,97 @@ def lead_head(v):
     if isinstance(v, T.BaseOperation) and not isinstance(v, model.AbsNode):
         h = h + v.operands[0].head
     return h
+
+
+def _tok_text(v):
+    return v.matched
+
+
+def _num_of(val, integer):
+    """numeric value denoted by an APPROX / BOOST token value (None: implicit)"""
+    n = val.v.value
+    if n is None:
+        return None
+    return z3.ToReal(ext.int_val(S(n))) if integer else ext.dec_val(S(n))
+
+
+def shape_obligations(key, lhs, rhs, func, vals, res):
+    """C03-S / C03-F / C03-I: the node built by a production, stated from the grammar of the STATEMENT (keyed by
+    the production's symbols, not by the code): class, children = the right-hand-side values in order (same
+    objects), attributes from the token TEXTS only.  The fingerprint of the result is a function of texts and
+    children's fingerprints alone, hence independent of layout (C03-I)."""
+    out = []
+    name = "C03-S/%s/" % key
+
+    def same(a, b):
+        return a is b
+
+    if len(rhs) == 3 and rhs[0] == rhs[2] == "expression" and rhs[1] in ("OR_OP", "AND_OP") or rhs == ["expression", "expression"]:
+        cls = {"OR_OP": T.OrOperation, "AND_OP": T.AndOperation}.get(rhs[1], T.UnknownOperation)
+        a, b = vals[0].v, vals[-1].v
+        exp = []
+        for x in (a, b):
+            if type(x) is cls:
+                exp.extend(list(x.operands))
+            elif isinstance(x, model.AbsNode) or True:
+                exp.append(x)
+        ok = type(res) is cls and len(tuple(res.operands)) == len(exp) and all(p is q for p, q in zip(res.operands, exp))
+        out.append((name + "n-ary node of the rule's operator: operands of same-class operands spliced, others kept, in order", ok))
+        # never flattens across classes: an abstract operand known NOT to be of the class stays one operand
+        return out
+    if len(rhs) == 2 and rhs[0] in ("PLUS", "MINUS", "NOT") and lhs in ("unary_expression", "possibly_negative_term"):
+        cls = {"PLUS": T.Plus, "MINUS": T.Prohibit, "NOT": T.Not}[rhs[0]]
+        out.append((name + "prefix node around the operand", type(res) is cls and res.a is vals[1].v))
+        return out
+    if len(rhs) == 1:
+        if rhs[0] == "TO":
+            out.append((name + "TO outside a range is the word TO", z3.And(z3.BoolVal(type(res) is T.Word), S(res.value) == "TO")
+                        if type(res) is T.Word else False))
+        else:
+            out.append((name + "value passed through unchanged", res is vals[0].v))
+        return out
+    if rhs[0] == "LPAREN":
+        out.append((name + "group around the expression", type(res) is T.Group and res.expr is vals[1].v))
+        return out
+    if rhs[0] == "LBRACKET":
+        ok = type(res) is T.Range and res.low is vals[1].v and res.high is vals[3].v
+        if ok:
+            ok = z3.And(sym.B(res.include_low) == z3.BoolVal(_tok_text(vals[0]) == "["),
+                        sym.B(res.include_high) == z3.BoolVal(_tok_text(vals[4]) == "]"))
+        out.append((name + "range: bounds in order, inclusiveness by bracket / brace kind", ok))
+        return out
+    if rhs[0] in ("LESSTHAN", "GREATERTHAN"):
+        cls = T.To if rhs[0] == "LESSTHAN" else T.From
+        ok = type(res) is cls and res.a is vals[1].v
+        if ok:
+            ok = sym.B(res.include) == z3.BoolVal(_tok_text(vals[0]).endswith("="))
+        out.append((name + "comparison: bound and inclusiveness from the sign", ok))
+        return out
+    if rhs[:2] == ["TERM", "COLUMN"]:
+        ok = type(res) is T.SearchField
+        if ok:
+            e = res.expr
+            orig = vals[2].v
+            conv = isinstance(e, model.AbsNode) and e.fp is not None
+            ok = z3.And(S(res.name) == S(_tok_text(vals[0])),
+                        e.fp == fgconv(orig.fp) if isinstance(e, model.AbsNode) and isinstance(orig, model.AbsNode) else z3.BoolVal(e is orig or type(e) is T.FieldGroup))
+        out.append((name + "field: name is the term's text, expression is the field expression of the operand", ok))
+        return out
+    if rhs[-1] in ("APPROX", "BOOST") and len(rhs) == 2:
+        cls = {"TERM": T.Fuzzy, "PHRASE": T.Proximity}.get(rhs[0], T.Boost) if rhs[1] == "APPROX" else T.Boost
+        ok = type(res) is cls and (res.term if cls is not T.Boost else res.expr) is vals[0].v
+        if ok:
+            n = _num_of(vals[1], integer=(cls is T.Proximity))
+            got = model.num_term(res.degree if cls is not T.Boost else res.force)
+            if n is None:
+                ok = z3.And(got == {T.Fuzzy: z3.RealVal("1/2"), T.Proximity: z3.RealVal(1), T.Boost: z3.RealVal(1)}[cls],
+                            z3.BoolVal(bool(res._implicit_degree if cls is not T.Boost else res.implicit_force)))
+            else:
+                ok = z3.And(got == n, z3.BoolVal(not (res._implicit_degree if cls is not T.Boost else res.implicit_force)))
+        out.append((name + "suffix node: operand and the numeral's value (default when absent)", ok))
+        return out
+    out.append((name + "production has a shape specification", False))
+    return out
 
 
 def ext_len(operands):
